@@ -92,7 +92,10 @@ class MsSqlImpl(SqlImpl):
 
         # mssql complains about OFFSET if there is no ORDER BY
         if query.offset and not query.order_by:
-            query.order_by = [Order(final_select[0])]
+            # (constant columns do not appear in ORDER BY)
+            query.order_by = [
+                Order(next((col for col in final_select if not types.is_const(col.dtype())), final_select[0]))
+            ]
 
         return cls.compile_query(table, query, sqa_expr)
 
